@@ -240,7 +240,7 @@ impl TreeBuilder {
     /// unexpected (ASSUMED frame): reports one parse error
     #[verifier::external_body]
     pub fn unexpected<T>(&mut self, _thing: &T) -> (r: ProcessResult)
-        ensures final(self).same_but_stack(old(self)), final(self).stack() == old(self).stack(),
+        ensures r is Done, final(self).same_but_stack(old(self)), final(self).stack() == old(self).stack(),
                 final(self).sink == (Sink { errs: Ghost(old(self).sink.errs@ + 1), ..old(self).sink }),
     { unimplemented!() }
 }
